@@ -189,7 +189,7 @@ impl Scenario for RouteSc {
         self.0.name.clone()
     }
     fn poll_cap(&self) -> u64 {
-        5_000_000
+        100_000
     }
     fn run(&self) -> (RouteObs, Vec<Violation>) {
         let cfg = self.0.clone();
